@@ -2,5 +2,5 @@
 # runs every registered quick check (refreshing the evidence files) and prints a summary
 cd /verif
 for p in $(python3 -c "from vf import props; print(' '.join(sorted(props.PROPS)))"); do
-  ./check $p --tier ${1:-quick} 2>/dev/null | grep -v "^  obligation" | head -3
+  ./check $p --tier ${1:-quick} 2>/dev/null | grep -v "^  obligation" | head -12
 done
